@@ -52,7 +52,7 @@ func LoadEngine(repoDir string, patterns []string) (*Engine, error) {
 	prog.Build()
 	e := &Engine{prog: prog, pkgs: map[string]*packages.Package{}, ssaPkgs: map[string]*ssa.Package{}, funcs: map[string]*ssa.Function{},
 		db: NewSpecDB(), ghostByType: map[string]*GhostField{}, ghostOwnerSort: map[string]string{}, ghostOwnerType: map[string]types.Type{}, repoDir: repoDir,
-		inlineDepth: 3, inlineSize: 60, inlinePkgs: map[string]bool{"github.com/ipfs/go-cid": true}, makeLimit: pow2(40)}
+		inlineDepth: 3, inlineSize: 60, inlinePkgs: map[string]bool{"github.com/ipfs/go-cid": true}, makeLimit: pow2(62)}
 	packages.Visit(pkgs, nil, func(p *packages.Package) {
 		e.pkgs[p.PkgPath] = p
 		if p.Module != nil && p.Module.Main {
@@ -185,7 +185,10 @@ func (e *Engine) LoadSpecs(extDir string) error {
 				name = name[:i]
 			}
 			full := name
-			if i := strings.LastIndex(name, "."); i >= 0 {
+			if i := strings.LastIndex(name, "."); i >= 0 && !isMethod && e.typesPkg(ct.Pkg) != nil && e.typesPkg(ct.Pkg).Scope().Lookup(name[:i]) != nil {
+				// "Type.field" of the contract's own package
+				full = ct.Pkg + "." + name
+			} else if i := strings.LastIndex(name, "."); i >= 0 {
 				if p := e.findPkgByName(ct.Pkg, name[:i]); p != nil {
 					full = p.Path() + "." + name[i+1:]
 				} else if name[:i] == "io" || name[:i] == "hash" || name[:i] == "error" {
@@ -210,7 +213,7 @@ func (e *Engine) LoadSpecs(extDir string) error {
 
 func isBuiltinSortName(s string) bool {
 	switch s {
-	case "Iface", "Addr", "Slice", "Int", "Str", "Bool", "Func":
+	case "Iface", "Addr", "Slice", "Int", "Str", "Bool", "Func", "string":
 		return true
 	}
 	return false
